@@ -13,6 +13,11 @@ def minK (a b : K) : K := if b < a then b else a
 /-- Python `max(a, b)`: `b` if `b > a` else `a` -/
 def maxK (a b : K) : K := if b > a then b else a
 
+/-- hand-modelled part of `calc_concentric_intersect_volume`: exit parameter of the lateral edge
+`(r1,0) → (r2,h)` (meridian plane) from the sphere of radius `r1` — the larger root `t` of the
+line–sphere intersection the code computes with `find_sphere_line_intersection` -/
+def exitTK [OfNat K 2] (r1 r2 h : K) : K := 2 * r1 * (r1 - r2) / (h * h + (r1 - r2) * (r1 - r2))
+
 abbrev Mat (K : Type) := List (List K)
 
 def dotK (u v : List K) : K := (List.zipWith (· * ·) u v).foldr (· + ·) 0
